@@ -637,6 +637,10 @@ def run(prog, rep):
     rule_chain(prog, rep)
     rule_cycle(prog, rep)
     rule_reserved(prog, rep)
+    # `every implemented interface field is present with a compatible type`: the compatibility
+    # table itself (C29.IMPL)
+    from .C29 import rule_impl
+    rule_impl(prog, rep)
     # `exactly the built-in scalars that are referenced`: the C16 bookkeeping rules
     from . import C16
 
